@@ -57,6 +57,9 @@ def load_known(pid):
 
 # --------------------------------------------------------------------------
 # worker
+WATCHDOG_TIMER = signal.ITIMER_VIRTUAL
+
+
 def _alarm(signum, frame):
     from vt.monitor import CaseTimeout
     raise CaseTimeout()
@@ -66,13 +69,17 @@ def run_one(mod, case, ctx, limit):
     """Run one case under the watchdog.  Returns a result dict."""
     from vt import monitor as M
     res = None
+    if isinstance(case, dict) and case.get("limit_x"):
+        limit = limit * float(case["limit_x"])          # larger-scale cases declare how much longer they may take
+    # The watchdog counts the CPU time this process spends in user mode (ITIMER_VIRTUAL), not wall-clock time: a loop
+    # that does not terminate burns it, a loaded machine does not.
     for attempt, lim in enumerate((limit, 3 * limit)):
-        signal.setitimer(signal.ITIMER_REAL, lim)
+        signal.setitimer(WATCHDOG_TIMER, lim)
         del ctx.broken[:]
         try:
             with M.quiet():
                 res = mod.run_case(case, ctx)
-            signal.setitimer(signal.ITIMER_REAL, 0)
+            signal.setitimer(WATCHDOG_TIMER, 0)
             if ctx.broken and res["v"] == "held":
                 # a contract fired but the exception was swallowed on the way
                 res = {"v": "violated", "sig": res.get("sig"), "nt": res.get("nt", False),
@@ -80,22 +87,22 @@ def run_one(mod, case, ctx, limit):
                        "witness": {"contracts_broken": list(ctx.broken)}}
             return res
         except M.CaseTimeout:
-            signal.setitimer(signal.ITIMER_REAL, 0)
+            signal.setitimer(WATCHDOG_TIMER, 0)
             ctx.count("watchdog_fired")
             continue
         except M.ContractBroken as e:
-            signal.setitimer(signal.ITIMER_REAL, 0)
+            signal.setitimer(WATCHDOG_TIMER, 0)
             # a contract fired outside a judged call -> still a violation
             return {"v": "violated", "sig": None, "nt": False, "cls": [],
                     "witness": {"contract": e.name, "detail": e.detail,
                                 "traceback": M.short_tb(8)}}
         except BaseException:
-            signal.setitimer(signal.ITIMER_REAL, 0)
+            signal.setitimer(WATCHDOG_TIMER, 0)
             raise
     hang_ok = getattr(mod, "HANG_IS_VIOLATION", True)
     if hang_ok:
         return {"v": "violated", "sig": None, "nt": False, "cls": ["hang"],
-                "witness": {"hang": "call did not return within %.0f s (3x the case limit)" % (3 * limit)}}
+                "witness": {"hang": "call did not return within %.0f s of CPU time (3x the case limit)" % (3 * limit)}}
     return {"v": "inconclusive", "why": "watchdog"}
 
 
@@ -116,6 +123,7 @@ def worker_main(pid, chunk_path, out_path):
     ctx = M.CTX
     M.install_warning_counter()
     signal.signal(signal.SIGALRM, _alarm)
+    signal.signal(signal.SIGVTALRM, _alarm)
     limit = float(getattr(mod, "CASE_LIMIT_S", 20.0))
     out = {"chunk": chunk, "n": 0, "held": 0, "ood": 0, "violated": 0,
            "nontrivial": 0, "violations": [], "known": {}, "harness_errors": [],
@@ -438,6 +446,7 @@ def replay(pid, path):
         case = mod.decode_case(case)
     M.install_warning_counter()
     signal.signal(signal.SIGALRM, _alarm)
+    signal.signal(signal.SIGVTALRM, _alarm)
     with M.quiet():
         if hasattr(mod, "setup"):
             mod.setup(M.CTX)
